@@ -12,7 +12,7 @@ for d in sorted(os.listdir(S)):
     m = json.load(open(mp))
     c = m["confirmed"]
     cell = lambda x: str(x or "").replace("|", "\\|").replace("\n", " ")
-    rows.append("| %s | %s | %s | %s | %s | %s/%s | %s | %s |" % (d, m["property"], cell(m["summary"])[:400], cell(m["needs"])[:400], ", ".join(c["detected_by"]) or "MISSED",
+    rows.append("| %s | %s | %s | %s | %s | %s/%s | %s | %s |" % (d, m["property"], cell(m["summary"])[:400], cell(m["needs"])[:400], ", ".join(next((v["detected_by"] for k, v in m.items() if k.startswith("after_repair_")), c["detected_by"])) or "MISSED",
                 c["demo_without_patch"], c["demo_with_patch"], cell(c["existing_suite"])[:12], cell(notes.get(d, ""))))
 out = ["# Seeded changes (independently produced breaking changes)", "",
        "Each directory holds `patch.diff` (applies to /repo at the recorded base commit), the demonstration test (`*_test.go.txt`, to be placed in `demo_package`) and `meta.json` (what it breaks, what it needs to manifest, what was run to confirm it). All were produced by sub-agents that saw only the property text and a scratch worktree of /repo, never /verif; each was then confirmed by `tools/seeded.py` (demonstration passes without the patch and fails with it, the tree builds, the existing tests still pass) and the checks were run against it. `<ID>` = round 1, `<ID>r2` = round 2 (asked for a different mechanism than round 1). The last column says where a check first missed the change and what was strengthened; the `detected by` column is the state after strengthening.", "",
